@@ -24,6 +24,9 @@ type progOp struct {
 	Key   string `json:"key,omitempty"`
 	Tag   string `json:"tag,omitempty"`
 	Len   int    `json:"len,omitempty"`
+	// Nested are operations the same client performs while its file from Create is still open
+	// (after the first Write, before the rest and Close).
+	Nested []progOp `json:"nested,omitempty"`
 }
 
 // program is a list of operations per client.
@@ -38,7 +41,8 @@ type program struct {
 func execProgram(env *dbx.Env, tr *conc.Tracer, p program, onStart func(client int, gid int64)) []conc.Op {
 	txs := map[int]fs_db.Tx{}
 	var txMu sync.Mutex
-	doOp := func(rec *conc.Recorder, o progOp) {
+	var doOp func(rec *conc.Recorder, o progOp)
+	doOp = func(rec *conc.Recorder, o progOp) {
 		var st fs_db.Store = env.DB
 		if o.Tx >= 0 && o.Kind != "begin" {
 			txMu.Lock()
@@ -62,6 +66,9 @@ func execProgram(env *dbx.Env, tr *conc.Tracer, p program, onStart func(client i
 			if err == nil {
 				h := len(v) / 2
 				_, err = f.Write(v[:h])
+				for _, n := range o.Nested {
+					doOp(rec, n)
+				}
 				if err == nil {
 					_, err = f.Write(v[h:])
 				}
@@ -207,7 +214,24 @@ func genProgram(rng *rand.Rand, tag string, clients, opsPer int, keys []string, 
 				ops = append(ops, progOp{Kind: "set", Tx: tx, Key: key, Tag: t, Len: l})
 			case x < 38:
 				t, l := val()
-				ops = append(ops, progOp{Kind: "create", Tx: tx, Key: key, Tag: t, Len: l})
+				op := progOp{Kind: "create", Tx: tx, Key: key, Tag: t, Len: l}
+				if rng.Intn(2) == 0 {
+					// the client does something else while its file is open
+					for i := 1 + rng.Intn(2); i > 0; i-- {
+						nk := keys[rng.Intn(len(keys))]
+						switch rng.Intn(4) {
+						case 0:
+							op.Nested = append(op.Nested, progOp{Kind: "get", Tx: tx, Key: nk})
+						case 1:
+							nt, nl := val()
+							op.Nested = append(op.Nested, progOp{Kind: "create", Tx: tx, Key: nk, Tag: nt, Len: nl})
+						default:
+							nt, nl := val()
+							op.Nested = append(op.Nested, progOp{Kind: "set", Tx: tx, Key: nk, Tag: nt, Len: nl})
+						}
+					}
+				}
+				ops = append(ops, op)
 			case x < 48:
 				ops = append(ops, progOp{Kind: "delete", Tx: tx, Key: key})
 			case x < 88:
